@@ -16,7 +16,7 @@ rc=0; status="ran"; worst=0; worst_total=0; detail="[]"
 if ! command -v valgrind >/dev/null 2>&1; then
   echo "INCONCLUSIVE property=$ID reason=instruction-count-leg: valgrind not available"; status="valgrind-missing"
 else
-  SHAPES=$([ "$ID" = "C10" ] && echo "0 1 2 3" || echo "0 1 2 3 4")   # input shapes, see the ir-scale generators
+  SHAPES=$([ "$ID" = "C10" ] && echo "0 1 2 3" || echo "0 1 2 3 4 5")   # input shapes, see the ir-scale generators
   for sh in $SHAPES; do for j in $(seq 0 $((2*NS-1))); do
     k=$((100*sh+j))
     ( valgrind --tool=cachegrind --cache-sim=no --cachegrind-out-file=/dev/null ./target/verif/lvh one "$ID" --tier quick --seed 1 --gen ir-scale --n $k --out "$D/r$k.json" >"$D/v$k.log" 2>&1 ) &
